@@ -8,9 +8,9 @@ CLAIMED = {
    note="Trusts: the cfg(ethercrab_verif) event sites cover every shared-state access of the PDU loop; fibres are sequentially consistent; the harness' own frame codec. Assumes < 256 indices outstanding and no deadline expiry (timeouts are beyond the time horizon).",
    technique="deterministic simulation: seeded fibre scheduler (random/PCT/site-biased) + scripted wire, history oracle on attributable responses", section="DESIGN.md §4 C01"),
  "C02": dict(
-   text="Same scenario family with failed/partial sends and duplicate responses; decided by a happens-before race detector (vector clocks fed by the declared atomic orderings) over every buffer/bookkeeping access event of each slot, plus a slot-transition monitor restricted to the documented lifecycle and its legitimate actors.",
-   note="Trusts the completeness of the BufAccess/Atomic instrumentation; SC execution (weak-memory reorderings are only visible through the declared orderings); a failed compare-exchange is treated as an acquire load (the property speaks about instants, see DESIGN §7).",
-   technique="deterministic simulation: seeded fibre scheduler + vector-clock race detector + lifecycle monitor", section="DESIGN.md §4 C02"),
+   text="Same scenario family with failed/partial sends and duplicate responses; decided by a happens-before race detector (vector clocks fed by the declared atomic orderings) over every buffer/bookkeeping access event of each slot, plus a slot-transition monitor restricted to the documented lifecycle and its legitimate actors. Auxiliary batch (reported separately in the evidence under coverage.miri_aux): a std-threads scenario (TX, RX, 1..4 application threads, each slot used once) under Miri's seeded scheduler and weak-memory-aware race detector, which sees the actual memory orderings of the atomics.",
+   note="Trusts the completeness of the BufAccess/Atomic instrumentation; SC execution in the fibre engine (there weak-memory reorderings are only visible through the declared orderings; the Miri batch covers the actual orderings but only histories without slot reuse and without timers; in the quick tier it is skipped if the nightly/miri toolchain cannot build it); a failed compare-exchange is treated as an acquire load (the property speaks about instants, see DESIGN §7).",
+   technique="deterministic simulation: seeded fibre scheduler + vector-clock race detector + lifecycle monitor; auxiliary seeded-schedule runs under Miri (weak-memory data-race detector)", section="DESIGN.md §4 C02, §3.9"),
  "C03": dict(
    text="Seeded histories (run-to-block granularity) over 1..8 slots mixing round trips, validation failures, send errors, partial sends, loss, duplicates, deadline expiry with retries, future drops and frames dropped unsent, followed by the public-API reallocation probe: all N slots allocatable again, the (N+1)-th refused.",
    note="Abandonment exactly while TX/RX is inside the buffer is C06's window; the probe uses public API only.",
@@ -119,7 +119,7 @@ def main():
     hook_commits = [c.split()[0] for c in commits if "verif hooks" in c]
     m = {
         "version": 1,
-        "setup_cmd": "cd /verif && CARGO_NET_OFFLINE=true cargo build --release --offline -p ecsim",
+        "setup_cmd": "cd /verif && CARGO_NET_OFFLINE=true cargo build --release --offline -p ecsim && (python3 tools/miri_aux.py --build || echo 'miri-aux not built (C02 auxiliary batch will be skipped in the quick tier)')",
         "hooks": {
             "guard": "--cfg ethercrab_verif",
             "enable": "RUSTFLAGS='--cfg ethercrab_verif' from /verif/.cargo/config.toml; the harness depends on /repo by path with default-features = false",
@@ -128,7 +128,7 @@ def main():
             "add_only": True,
         },
         "engines": [{"name": "ecsim", "path": "/verif/sim", "serves_properties": sorted(CLAIMED.keys()),
-                     "kind_free_text": "deterministic simulator: seeded fibre scheduler over cfg-gated yield points (engine F) and await-level executor with an EtherCAT segment reference model (engine S); virtual clock (the harness is the embassy time driver); fault-injecting wire; one choice tape per run, ddmin minimisation, replay files"}],
+                     "kind_free_text": "deterministic simulator (plus /verif/miri-aux: C02's auxiliary std-threads scenario under Miri's seeded scheduler): seeded fibre scheduler over cfg-gated yield points (engine F) and await-level executor with an EtherCAT segment reference model (engine S); virtual clock (the harness is the embassy time driver); fault-injecting wire; one choice tape per run, ddmin minimisation, replay files"}],
         "checks": checks,
         "not_applicable": na,
         "notes": "Replay: ./check replay <file>. Known findings: /verif/known_findings.jsonl (fixed entries suppress nothing). Exit 2 = harness error.",
